@@ -87,12 +87,16 @@ Mismatch(e, r, d) ==
        missing_other_at |-> {x \in Ids(pa) \ Ids(oa) : r.st.S.at[x].rid \notin Touched(st, e.op)},
        missing_other_rt |-> {x \in Ids(pr) \ Ids(or) : r.st.S.rt[x].rid \notin Touched(st, e.op)},
        payload_exp |-> (pa \cup pr) \ (oa \cup or), payload_obs |-> (oa \cup or) \ (pa \cup pr),
-       exp_proj |-> Projection(r.st), obs_proj |-> ObsProj(e),
+       exp_proj |-> Projection(r.st), obs_proj |-> ObsProj(e), proj_differs |-> Projection(r.st) # ObsProj(e),
        exp_note |-> r.out.note, obs_note |-> e.obs.note, prop |-> "" ]
 
 PropFail(e, r) ==     \* property predicates evaluated on the matched step
   FailedState(r.st) \cup FailedStep(st, e.op, r)
 Hard == {"res", "issued", "probe_active", "now"}
+Stop == {"res", "issued", "now"}          \* after these the two histories have really parted: the rest is skipped
+ProbeSig(e, r) ==
+  LET pa == ProbeAT(r.st)  pr == ProbeRT(r.st)  oa == ObsAT(e)  or == ObsRT(e) IN
+  "probe:" \o ToString(<<Ids(oa) \ Ids(pa), Ids(or) \ Ids(pr), Ids(pa) \ Ids(oa), Ids(pr) \ Ids(or)>>)
 
 TStep ==
   /\ l <= Len(Trace)
@@ -119,6 +123,16 @@ TStep ==
                   /\ st' = r.st /\ skip' = FALSE /\ seen' = seen \cup d
                   /\ report' = Append(report, [Mismatch(e, r, d) EXCEPT !.prop = "soft"])
                   /\ stats' = [stats EXCEPT !.soft = @ + 1]
+             ELSE IF d \cap Stop = {}
+             THEN \* the request was answered as specified and issued what was specified, but the sets of active tokens differ
+                  \* (a token the specification has dead is still honoured, or the reverse).  Credential ids stay in step, so the
+                  \* history continues from the specification's state: a LATER consequence of another kind (the tokens a replayed
+                  \* code must kill, say) is not hidden behind this one.  Each distinct difference of the sets is reported once.
+                  LET sig == ProbeSig(e, r)
+                      new == ((d \ Hard) \ seen) \cup (IF sig \notin seen THEN {"probe_active"} ELSE {})
+                  IN /\ st' = r.st /\ skip' = FALSE /\ seen' = seen \cup (d \ Hard) \cup {sig}
+                     /\ report' = IF new = {} THEN report ELSE Append(report, Mismatch(e, r, new))
+                     /\ stats' = IF "probe_active" \in new THEN [stats EXCEPT !.diverged = @ + 1] ELSE [stats EXCEPT !.soft = @ + 1]
              ELSE /\ st' = st /\ skip' = TRUE /\ seen' = seen
                   /\ report' = Append(report, Mismatch(e, r, d))
                   /\ stats' = [stats EXCEPT !.diverged = @ + 1]
